@@ -404,3 +404,41 @@ func tokenize(s string) []string {
 	}
 	return toks
 }
+
+// CheckRelaxed runs the real-relaxation of the query on one solver. Only
+// Unsat answers are meaningful for the exact query; Sat means "possibly sat".
+func CheckRelaxed(solver string, asserts []*Term, limit time.Duration) (Result, string) {
+	script := ScriptRelaxed(asserts)
+	for _, k := range Kinds {
+		if k.Name == solver {
+			r, _, note := DefaultPool.run(k, script, nil, limit, nil)
+			return r, note
+		}
+	}
+	return Unknown, "no such solver"
+}
+
+// PortfolioRelaxed runs the real-relaxation on all solvers.
+func PortfolioRelaxed(asserts []*Term, limit time.Duration) (Result, string) {
+	script := ScriptRelaxed(asserts)
+	type ans struct {
+		r    Result
+		note string
+	}
+	ch := make(chan ans, len(Kinds))
+	cancel := make(chan struct{})
+	defer close(cancel)
+	for _, k := range Kinds {
+		go func(k SolverKind) {
+			r, _, note := DefaultPool.run(k, script, nil, limit, cancel)
+			ch <- ans{r, note}
+		}(k)
+	}
+	for range Kinds {
+		a := <-ch
+		if a.r != Unknown {
+			return a.r, ""
+		}
+	}
+	return Unknown, "relaxed: all unknown"
+}
